@@ -9,7 +9,13 @@ import (
 	"io"
 
 	"github.com/ipld/go-car/v2/internal/carv1"
+	internalio "github.com/ipld/go-car/v2/internal/io"
 )
+
+// VerifSetWriteHook installs (or clears, with nil) the write-trace / fault-injection hook.
+func VerifSetWriteHook(f func(kind string, off int64, b []byte) (n int, err error, override bool)) {
+	internalio.VerifWriteHook = f
+}
 
 // VerifCarV1Reader is the internal CARv1 reader.
 type VerifCarV1Reader = carv1.CarReader
